@@ -47,6 +47,41 @@ def _poly_singular(test_points, trial_points, test_normal, trial_normal, kernel_
     return out
 
 
+@numba.njit
+def _cpoly_regular(test_point, trial_points, test_normal, trial_normals, kernel_parameters):
+    """complex polynomial kernel, not symmetric in (x, y); the Maxwell assemblers pass None for the normals"""
+    n = trial_points.shape[1]
+    out = np.zeros(n, dtype=np.complex128)
+    for j in range(n):
+        d2 = 0.0
+        for i in range(3):
+            d = test_point[i] - trial_points[i, j]
+            d2 += d * d
+        out[j] = (0.37 + 0.81 * d2 + 0.3 * test_point[0] - 0.2 * trial_points[1, j]) + 1j * (
+            -0.45 + 0.29 * d2 + 0.11 * test_point[2] + 0.17 * trial_points[0, j])
+    return out
+
+
+@numba.njit
+def _cpoly_singular(test_points, trial_points, test_normal, trial_normal, kernel_parameters):
+    n = trial_points.shape[1]
+    out = np.zeros(n, dtype=np.complex128)
+    for j in range(n):
+        d2 = 0.0
+        for i in range(3):
+            d = test_points[i, j] - trial_points[i, j]
+            d2 += d * d
+        out[j] = (0.37 + 0.81 * d2 + 0.3 * test_points[0, j] - 0.2 * trial_points[1, j]) + 1j * (
+            -0.45 + 0.29 * d2 + 0.11 * test_points[2, j] + 0.17 * trial_points[0, j])
+    return out
+
+
+def _cpoly(x, y):
+    d = x - y
+    d2 = d.dot(d)
+    return (0.37 + 0.81 * d2 + 0.3 * x[0] - 0.2 * y[1]), (-0.45 + 0.29 * d2 + 0.11 * x[2] + 0.17 * y[0])
+
+
 def _poly(x, y, nx, ny):
     d = x - y
     return COEF[0] + COEF[1] * d.dot(d) + COEF[2] * d.dot(ny) + COEF[3] * d.dot(nx)
@@ -130,6 +165,19 @@ class Numeric:
                 env[v] = self.grids[""]["N"][idx[0], idx[1]]
             elif name == "JIT":
                 env[v] = self.grids[""]["JIT"][idx[0], idx[1], idx[2]]
+            elif name in ("Gcre", "Gcim"):
+                env[v] = _cpoly(self.point(idx[0]), self.point(idx[1]))[0 if name == "Gcre" else 1]
+            elif name == "dst":
+                d = self.point(idx[0]) - self.point(idx[1])
+                env[v] = float(np.sqrt(d.dot(d)))
+            elif name in ("el", "elt", "els"):
+                g = self.grids[name[2:]]
+                d = g["V"][:, idx[0]] - g["V"][:, idx[1]]
+                env[v] = float(np.sqrt(d.dot(d)))
+            elif name in ("V", "Vt", "Vs"):
+                env[v] = self.grids[name[1:]]["V"][idx[1], idx[0]]
+            elif name in ("J", "Jt", "Js"):
+                env[v] = self.grids[name[1:]]["J"][idx[0], idx[1], idx[2]]
             elif name == "coef":
                 env[v] = self.coef[idx[0]]
             elif name == "kp":
@@ -151,6 +199,100 @@ def _compare(res, fam, traced, got, num, tol=1e-11):
             return worst
     res.stats[f"tieB_{fam}_max_abs_diff"] = worst
     return worst
+
+
+def _compare_complex(res, fam, arr, got, num, tol=1e-13):
+    """complex traces (object array of CSym / numbers) against the compiled complex result, relative tolerance"""
+    worst, scale = 0.0, 0.0
+    a = np.asarray(arr, dtype=object)
+    want = np.zeros(a.shape, dtype=np.complex128)
+    for idx in np.ndindex(*a.shape):
+        re_, im_ = st.parts(a[idx])
+        want[idx] = complex(st.evaluate(re_, num.env_for(re_)), st.evaluate(im_, num.env_for(im_)))
+    scale = max(1.0, float(np.max(np.abs(want))))
+    got = np.asarray(got).reshape(want.shape)
+    for idx in np.ndindex(*a.shape):
+        diff = abs(complex(got[idx]) - want[idx])
+        worst = max(worst, diff / scale)
+        res.case((fam,) + tuple(idx), nontrivial=abs(want[idx]) > 1e-6)
+        if diff > tol * scale:
+            res.disagree("compiled Maxwell assembler differs from its trace", family=fam, index=list(idx),
+                         compiled=str(complex(got[idx])), traced=str(want[idx]))
+            return worst
+    res.stats[f"tieB_{fam}_max_rel_diff"] = worst
+    return worst
+
+
+def validate_maxwell(ctx, families=("mx_regular", "mx_singular", "mx_two", "mx_potential")):
+    """COMPILED Maxwell assemblers on random numeric data laid out like the symbolic configuration of props/asm_gen_mx.py
+    against the numeric value of the traces (relative 1e-13)."""
+    from props import asm_gen_mx as mx
+    res = Result()
+    import bempp_cl.core.numba_kernels as nk
+    import bempp_cl.api.space.shapesets as sh
+    env = ag.Env()
+    num = Numeric(ctx.rng)
+    p1 = sh._SHAPESETS["p1_discontinuous"]["evaluate"]
+    kp = num.kp.copy()
+    u32 = lambda a: np.asarray(a, dtype=np.uint32)
+    if "mx_regular" in families:
+        for fname, tag in (("maxwell_efield_regular_assembler", "efield"), ("maxwell_mfield_regular_assembler", "mfield")):
+            for glob in (True, False):
+                tr, Tsp, Ssp = mx.trace_mx_regular(env, fname, glob=glob)
+                out = np.zeros((Tsp.ndofs, Ssp.ndofs), dtype=np.complex128)
+                gd = num.griddata("")
+                getattr(nk, fname)(gd, gd, 3, 3, u32([0, 2]), u32([0, 1, 2]), num.mt.copy(), num.ms.copy(), u32(Tsp.l2g), u32(Ssp.l2g),
+                                   num.nmt.copy(), num.nms.copy(), num.qp.copy(), num.qw.copy(), _cpoly_regular, kp, True, p1, p1, out)
+                _compare_complex(res, f"mx_{tag}_regular_{'edge' if glob else 'local'}", tr, out, num)
+    if "mx_singular" in families:
+        P = np.array(ag.SING_PAIRS, dtype=np.uint32)
+        for fname, tag in (("maxwell_efield_singular", "efield"), ("maxwell_mfield_singular", "mfield")):
+            tr = mx.trace_mx_singular(env, fname)
+            out = np.zeros(tr.shape[0], dtype=np.complex128)
+            getattr(nk, fname)(num.griddata(""), num.stp.copy(), num.ssp.copy(), num.sw.copy(), P[:, 0].copy(), P[:, 1].copy(),
+                               P[:, 2].copy(), P[:, 3].copy(), P[:, 4].copy(), P[:, 5].copy(), num.nmt.copy(), num.nms.copy(),
+                               3, 3, p1, p1, _cpoly_singular, kp, out)
+            _compare_complex(res, f"mx_{tag}_singular", tr, out, num)
+    if "mx_two" in families:
+        for fname, tag in (("maxwell_efield_regular_assembler", "efield"), ("maxwell_mfield_regular_assembler", "mfield")):
+            tr, Tsp, Ssp = mx.trace_mx_regular(env, fname, two_grids=True)
+            out = np.zeros((Tsp.ndofs, Ssp.ndofs), dtype=np.complex128)
+            getattr(nk, fname)(num.griddata("t"), num.griddata("s"), 3, 3, u32([0, 1]), u32([0, 1]), num.mt[:2].copy(), num.ms[:2].copy(),
+                               u32(Tsp.l2g), u32(Ssp.l2g), num.nmt[:2].copy(), num.nms[:2].copy(), num.qp.copy(), num.qw.copy(),
+                               _cpoly_regular, kp, False, p1, p1, out)
+            _compare_complex(res, f"mx_{tag}_two_grids", tr, out, num)
+    if "mx_potential" in families:
+        gt = num.grids["t"]
+        pts = np.hstack([gt["V"][:, [int(gt["E"][0, e])]] + gt["J"][e] @ num.qp for e in range(2)])
+        for fname in ("maxwell_efield_potential", "maxwell_mfield_potential", "maxwell_efield_far_field", "maxwell_mfield_far_field"):
+            tr = mx.trace_mx_potential(env, fname)
+            out = getattr(nk, fname)(np.dtype("float64"), np.dtype("complex128"), 3, np.asfortranarray(pts), num.coef.copy(),
+                                     num.griddata("s"), num.qp.copy(), num.qw.copy(), 3, p1, _cpoly_regular, kp, num.nms[:2].copy(),
+                                     u32([0, 1]))
+            _compare_complex(res, "mx_" + fname[len("maxwell_"):], tr, np.asarray(out), num)
+    return res
+
+
+def validate_sparse(ctx):
+    """COMPILED default_sparse_kernel + laplace_beltrami_kernel (+ the compiled P1 surface-gradient evaluator) against the
+    numeric value of the trace of props/asm_gen_sparse.py."""
+    from props import asm_gen_sparse as sg
+    res = Result()
+    import bempp_cl.core.numba_kernels as nk
+    import bempp_cl.api.space.shapesets as sh
+    import bempp_cl.api.space.scalar_spaces as ss
+    env = ag.Env()
+    num = Numeric(ctx.rng)
+    grad = sh._SHAPESETS["p1_discontinuous"]["gradient"]
+    for kind in ("p1", "dp1"):
+        tr = sg.trace_laplace_beltrami(env, kind)
+        out = np.zeros(tr.shape[0])
+        nk.default_sparse_kernel(num.griddata(""), 3, 3, np.array(sg.ELEMENTS, dtype=np.uint32), num.qp.copy(), num.qw.copy(),
+                                 num.nmt.copy(), num.nms.copy(), num.mt.copy(), num.ms.copy(), grad, grad,
+                                 ss._numba_p1_surface_gradient, ss._numba_p1_surface_gradient, nk.laplace_beltrami_kernel, out)
+        traced = {(k,): st.Sym.lift(tr[k]).t for k in range(tr.shape[0])}
+        _compare(res, "sparse_lb_" + kind, traced, out, num, tol=1e-13)
+    return res
 
 
 def validate(ctx, families=("regular", "singular", "potential")):
